@@ -66,7 +66,7 @@ ASSUMPTIONS = [
     "the archive is observed through a subclass that records the arguments and the return value of add / "
     "add_single (public methods) and through data()",
     "the spy emitters validate what they are told the way library emitters do (finite values, (n,), "
-    "(n, measure_dim), (n, measure_dim + 1, solution_dim) and the extra fields' shapes) and raise ValueError "
+    "(n, measure_dim), (n, measure_dim + 1, solution_dim), the batch dimension of the extra fields) and raise ValueError "
     "otherwise; on valid input emitters and archives do not raise",
     "a tell rejected with ValueError (any malformed argument) must have called neither archive nor emitter and must "
     "leave both archives' contents unchanged. Readings kept: archive and result archive of a case differ only in "
@@ -240,10 +240,9 @@ def make_spies(archive, descr, log):
                     raise ValueError(f"spy emitter {self.idx}: {name} has shape {arr.shape}, expected {shape}")
                 if not np.all(np.isfinite(arr)):
                     raise ValueError(f"spy emitter {self.idx}: {name} is not finite")
-            for name, shape in (("tag", (n,)), ("vec", (n, 2))):
-                if name in entry["fields"] and entry["fields"][name].shape != shape:
-                    raise ValueError(f"spy emitter {self.idx}: field {name} has shape "
-                                     f"{entry['fields'][name].shape}, expected {shape}")
+            for name, arr in entry["fields"].items():  # extra fields: the batch dimension only, as validate_batch
+                if arr.shape[:1] != (n,):
+                    raise ValueError(f"spy emitter {self.idx}: field {name} has shape {arr.shape} for {n} rows")
 
         def tell(self, solution, objective, measures, add_info, **fields):
             log.append({"ev": "tell", "dqd": False, "em": self.idx, "solution": np.array(solution),
@@ -395,7 +394,7 @@ def gen_with(kind, rng, long=False):
         if fault in ("nan", "inf"):
             which = ["measures"] + (["objective"] if kind != "proximity" else [])
         elif fault == "shape":
-            which = ["measures"] + (["vec"] if case["extra"] else [])
+            which = ["measures"] + (["vec"] if case["extra"] and kind != "proximity" else [])
         if dq:
             which = which + ["jacobian", "jacobian"]
         return {"op": "telldqdbad" if dq else "tellbad", "seed": rng.randrange(1 << 30), "fault": fault,
@@ -546,6 +545,8 @@ def run_mode(case, mode, drv):
                     w = op["which"]
                     if w != "jacobian" and (w not in args or args[w] is None):
                         w = "measures"
+                    if w in ("vec", "tag") and not with_obj and op.get("fault") == "shape":
+                        w = "measures"  # without an objective an insertion cannot be forced (see below)
                     fault = op.get("fault", "length")
                     n_now = len(ev["measures"])
                     if n_now == 0:
@@ -562,6 +563,12 @@ def run_mode(case, mode, drv):
                         target[(row,) + (0,) * (target.ndim - 1)] = np.nan if fault == "nan" else \
                             (np.inf if op.get("row", 0) % 2 else -np.inf)
                     else:  # wrong inner shape, right length
+                        if w in ("vec", "tag"):
+                            # C11 reading: an archive that would insert no row does not look at the extra fields (a
+                            # mis-shaped field is then silently accepted and changes nothing).  Row 0 gets an objective
+                            # above everything stored, so that the archive does insert and must validate the field.
+                            args["objective"] = np.array(args["objective"], dtype=float)
+                            args["objective"][0] += 1000.0 + it
                         if target.ndim == 1:  # objective / tag: one column too many
                             target = np.stack([target, target], axis=1)
                         elif w == "jacobian":  # (n, measure_dim, solution_dim): the objective gradient is missing
